@@ -116,7 +116,7 @@ Drifts(ev) ==
          IN ~SameModels(r.st.models, FixModels(ev.after)) \/ r.root # ev.root
     \* the faithful closure loop grows quadratically per pass: the algorithm layer follows the code only on
     \* instances of bounded size (drift is information, never a verdict)
-    [] ev.ev = "MergeModels" /\ ev.exc = "" /\ Len(ev.before.models) <= 12 ->
+    [] ev.ev = "MergeModels" /\ ev.exc = "" /\ Len(ev.before.models) <= 20 ->
          LET r == MergeModels([next |-> ev.before.next, models |-> FixModels(ev.before)],
                               FixPolicy(ev.policy), FixEnv(ev.env))
          IN ~SameModels(r.models, FixModels(ev.after))
